@@ -125,3 +125,142 @@ async fn bundling_empties_the_pool_and_its_reservations() {
     }
     assert!(bundled >= 4, "setup: bundling must succeed in most scenarios (succeeded in {})", bundled);
 }
+
+/// C14 (bundling, second half): a bundling attempt that yields no block leaves the pool unchanged. The block is made to
+/// fail AFTER Block::create has drained the pool: the golden ticket handed to the bundler carries a truncated payload
+/// (Block::generate refuses it), or two pooled transactions conflict (planted directly, as after an undetected
+/// double spend) so that Block::create's own double-spend detection fires
+#[tokio::test]
+#[serial_test::serial]
+async fn failed_bundling_leaves_the_pool_unchanged() {
+    use std::ops::Deref;
+    let mut failed = 0;
+    for scenario in ["truncated golden ticket", "conflicting pooled transactions"] {
+        for n_pooled in 1..=3usize {
+            let mut t = TestManager::default();
+            t.initialize(100, 200_000_000_000_000).await;
+            let (pk, sk) = { let w = t.wallet_lock.read().await; (w.public_key, w.private_key) };
+            let configs = t.config_lock.read().await;
+            let genesis_period = configs.get_consensus_config().unwrap().genesis_period;
+            let blockchain = t.blockchain_lock.read().await;
+            let tip_id = blockchain.get_latest_block_id();
+            let ts = blockchain.get_latest_block().unwrap().timestamp;
+            let mut mempool = t.mempool_lock.write().await;
+            for k in 0..n_pooled {
+                let mut tx = { let mut w = t.wallet_lock.write().await; Transaction::create(&mut w, pk, 1_000 + k as u64, 0, false, None, tip_id, genesis_period).unwrap() };
+                tx.timestamp = ts + 1 + k as u64;
+                tx.sign(&sk);
+                tx.generate(&pk, 0, 0);
+                mempool.add_transaction_if_validates(tx.clone(), &blockchain).await;
+                assert!(mempool.transactions.contains_key(&tx.signature), "setup: transaction {} pooled", k);
+            }
+            let mut gt_tx = None;
+            if scenario == "truncated golden ticket" {
+                let mut gt = Transaction::default();
+                gt.transaction_type = TransactionType::GoldenTicket;
+                gt.data = vec![7u8; 40];
+                gt.timestamp = ts + 50;
+                gt.sign(&sk);
+                gt.generate(&pk, 0, 0);
+                gt_tx = Some(gt);
+            } else {
+                // a second transaction spending the inputs of a pooled one, planted next to it
+                let first = mempool.transactions.values().next().unwrap().clone();
+                let mut twin = first.clone();
+                twin.timestamp += 1000;
+                twin.sign(&sk);
+                twin.generate(&pk, 0, 0);
+                mempool.transactions.insert(twin.signature, twin);
+            }
+            let before: Vec<_> = { let mut v: Vec<_> = mempool.transactions.keys().cloned().collect(); v.sort(); v };
+            let reserved_before: Vec<_> = { let mut v: Vec<_> = mempool.utxo_map.keys().cloned().collect(); v.sort(); v };
+            let block = mempool.bundle_block(&blockchain, ts + 120_000, gt_tx, configs.deref(), &t.storage).await;
+            if block.is_none() {
+                failed += 1;
+                let after: Vec<_> = { let mut v: Vec<_> = mempool.transactions.keys().cloned().collect(); v.sort(); v };
+                let reserved_after: Vec<_> = { let mut v: Vec<_> = mempool.utxo_map.keys().cloned().collect(); v.sort(); v };
+                if after != before || reserved_after != reserved_before {
+                    witness(format!("bundling gave no block ({}, {} pooled transaction(s)) but did not leave the pool as it was: {} pooled before, {} after; {} inputs reserved before, {} after",
+                        scenario, n_pooled, before.len(), after.len(), reserved_before.len(), reserved_after.len()));
+                }
+            }
+        }
+    }
+    assert!(failed >= 3, "setup: the bundling attempts must fail after the pool was drained (failed in {})", failed);
+}
+
+/// C14: after every block addition every pooled transaction is still valid against the ledger — also when what makes it
+/// invalid is that its input has left the retention window (scenario of an independent audit)
+#[tokio::test]
+#[serial_test::serial]
+async fn pooled_transaction_whose_input_expires_leaves_the_pool() {
+    use crate::core::consensus::slip::Slip;
+    use crate::core::util::crypto::generate_keys;
+
+    let mut t = TestManager::default();
+    t.initialize(100, 200_000_000_000_000).await;
+    let genesis_period = {
+        let configs = t.config_lock.read().await;
+        configs.get_consensus_config().unwrap().genesis_period
+    };
+
+    // block 2 pays an outside key K : output O
+    let (k_public, k_private) = generate_keys();
+    t.transfer_value_to_public_key(k_public, 1_000_000, 120_000)
+        .await
+        .unwrap();
+    let o: Slip = {
+        let blockchain = t.blockchain_lock.read().await;
+        assert_eq!(blockchain.get_latest_block_id(), 2);
+        let block = blockchain.get_latest_block().unwrap();
+        block
+            .transactions
+            .iter()
+            .flat_map(|tx| tx.to.iter())
+            .find(|slip| slip.public_key == k_public && slip.amount == 1_000_000)
+            .expect("block 2 pays K")
+            .clone()
+    };
+    assert_eq!(o.block_id, 2);
+
+    // T : K spends O. it arrives while O is well inside the retention window and is pooled
+    let mut tx_t = Transaction::default();
+    tx_t.add_from_slip(o.clone());
+    let mut output = Slip::default();
+    output.public_key = k_public;
+    output.amount = o.amount;
+    tx_t.add_to_slip(output);
+    tx_t.timestamp = crate::core::util::test::test_manager::test::create_timestamp();
+    tx_t.generate(&k_public, 0, 0);
+    tx_t.sign(&k_private);
+    {
+        let blockchain = t.blockchain_lock.read().await;
+        let mut mempool = t.mempool_lock.write().await;
+        mempool
+            .add_transaction_if_validates(tx_t.clone(), &blockchain)
+            .await;
+        assert_eq!(mempool.transactions.len(), 1, "T is valid and is pooled");
+    }
+
+    // peers extend the chain with blocks that do not carry T (a golden ticket in every second
+    // block); after every block addition every pooled transaction must still be valid
+    for i in 0..genesis_period {
+        let ts = t.get_latest_block().await.timestamp + 120_000;
+        let block = t
+            .create_block(t.latest_block_hash, ts, 1, 1_000, 0, i % 2 == 0)
+            .await;
+        t.add_block(block).await;
+
+        let blockchain = t.blockchain_lock.read().await;
+        let mempool = t.mempool_lock.read().await;
+        assert_eq!(blockchain.get_latest_block_id(), 3 + i, "block was added");
+        for tx in mempool.transactions.values() {
+            if !tx.validate(&blockchain.utxoset, &blockchain, true) { witness(format!(
+                "after the addition of block {} the pool still holds a transaction that is no longer valid against the ledger: its input of block {} has left the retention window (genesis_period {}), add_transaction_if_validates() would refuse it now",
+                blockchain.get_latest_block_id(),
+                tx.from[0].block_id,
+                genesis_period
+            )); }
+        }
+    }
+}
